@@ -4043,25 +4043,6 @@ class CaseNode(Node):
                     ProgramData.imbue(trans, DTAG.NAME, "else action on case node")
                     ProgramData.imbue(trans, DTAG.PARENT, self)
 
-        # The actions of a clause without a body are placed on the transitions entering its finish states. That is only right if
-        # entering one of them means the clause is the one that is taken: check that before touching the decider.
-        for i in mergeable_ds:
-            if original_backreference[i] is not None or empty_backreference[i] is None or not self.case_match_actions[empty_backreference[i]]:
-                continue
-            if decider_dfa.starting_state in corresponding_finish_states[i]:
-                raise IllegalASTStateError("Unable to schedule the actions of a case clause without a body: its pattern matches the empty string", self, *self.case_match_actions[empty_backreference[i]])
-            finish_states_of_others = set().union(*(corresponding_finish_states[j] for j in mergeable_ds if j is not i))
-            visited = set()
-            to_visit = list(corresponding_finish_states[i])
-            while to_visit:
-                for trans in to_visit.pop().all_transitions():
-                    if trans.error_handling or trans.target is None or trans.target in visited:
-                        continue
-                    if trans.target in finish_states_of_others:
-                        raise IllegalASTStateError("Unable to schedule the actions of a case clause without a body: a longer input selects a different clause", self, *self.case_match_actions[empty_backreference[i]])
-                    visited.add(trans.target)
-                    to_visit.append(trans.target)
-
         # Go through and link up all the states
         for i in mergeable_ds:
             # If there was no state machine associated with the DFA
@@ -4070,14 +4051,20 @@ class CaseNode(Node):
                 true_backref = empty_backreference[i]
                 # If this was _not_ the else
                 if true_backref is not None:
-                    # Handle empty matches
-                    all_transitions_empty = set().union(*(decider_dfa.transitions_pointing_to(x) for x in corresponding_finish_states[i]))
+                    # Handle empty matches. Entering a finish state only means that the clause is taken if the decider is left for good there: where it
+                    # goes on matching (a longer input may select another clause, or fall out to the else clause; a repeating pattern comes round again)
+                    # or has not consumed anything yet, the clause's actions wait until it is left.
+                    left_for_good = [x for x in corresponding_finish_states[i] if x is not decider_dfa.starting_state and all(t.error_handling for t in x.transitions)]
+                    still_matching = [x for x in corresponding_finish_states[i] if x not in left_for_good]
+                    all_transitions_empty = set().union(*(decider_dfa.transitions_pointing_to(x) for x in left_for_good))
                     strict_actions = timing_strict_actions(self.case_match_actions[true_backref])
-                    if len(all_transitions_empty) != 1 and strict_actions:
+                    if len(all_transitions_empty) > 1 and strict_actions:
                         raise UnableToScheduleActionError([i], strict_actions)
                     # Add actions
                     for j in all_transitions_empty:
                         j.attach(*self.case_match_actions[true_backref], prepend=True)
+                    if still_matching and self.case_match_actions[true_backref]:
+                        decider_dfa.append_action_step(self.case_match_actions[true_backref], still_matching)
             else:
                 refers_to = sub_dfas[original_backreference[i]]
                 decider_dfa.append_after(refers_to, sub_states=corresponding_finish_states[i], chain_actions=self.case_match_actions[original_backreference[i]])
